@@ -288,6 +288,21 @@ let handle fields =
         string_of_int (int_of_nat e.e_src) ^ show_origin e.e_origin ^ ":" ^
         (if e.e_c then field_of_ustr (nm_c_name p sc e) else "-") ^ ":" ^
         (if e.e_f then field_of_ustr (nm_f_impl fsc e) else "-") ^ ":" ^ field_of_ustr (nm_f_generic e)) (expand fs))
+  | ["capsule"; ops] ->
+      let op_of t = match String.split_on_char ':' t with
+        | ["N"; k] -> New (nat_of_int (int_of_string k)) | ["B"; a] -> Borrow (nat_of_int (int_of_string a)) | ["L"] -> LibObject
+        | ["M"; h] -> Method (nat_of_int (int_of_string h)) | ["D"; h] -> Destroy (nat_of_int (int_of_string h))
+        | ["R"; h] -> Release (nat_of_int (int_of_string h)) | ["C"; h] -> Copy (nat_of_int (int_of_string h)) | _ -> failwith "op" in
+      let ops = if ops = "" then [] else List.map op_of (String.split_on_char ',' ops) in
+      (* index of the first failing operation: run the prefixes *)
+      let rec first_fail s i = function
+        | [] -> (s, i, Done)
+        | o :: r -> (match cstep s o with (s1, Done) -> first_fail s1 (i + 1) r | (s1, e) -> (s1, i, e)) in
+      let (s, i, e) = first_fail init 0 ops in
+      let name = (match e with Done -> "Done" | DoubleFree -> "DoubleFree" | UseAfterFree -> "UseAfterFree" | WrongDeallocator -> "WrongDeallocator"
+        | FreeOfLibraryOwned -> "FreeOfLibraryOwned" | NullHandle -> "NullHandle" | BadOp -> "BadOp") in
+      let live k = List.length (List.filter (fun o -> int_of_nat o.o_kind = k && o.o_live) s.oheap) in
+      Printf.sprintf "%s %d live1=%d live2=%d live3=%d live4=%d" name i (live 1) (live 2) (live 3) (live 4)
   | ["uncamel"; s] -> field_of_ustr (un_camel (ustr_of_field s))
   | ["decl"; c; s] -> show_result show_stmt (parse_statement (ctx_of_field c) (ustr_of_field s))
   | ["lstrip"; s] -> field_of_ustr (lstrip (ustr_of_field s))
